@@ -1,5 +1,5 @@
 PROPS["C06"] = dict(
-    pkg="p_kv", hooks=[], level="exploration", design="DESIGN.md §4 C06",
+    pkg="p_kv", hooks=["inmem"], level="exploration", design="DESIGN.md §4 C06",
     technique="model-based PBT with a virtual clock: in-memory backend inside a testing/synctest bubble (fake clock), Redis via miniredis FastForward; systematic first-touch matrix + rapid op lists",
     rule="case = op list as in C03 plus advance(23/47/97/251 min), wait (WaitForVersionChange expected to return at once), park (a waiter "
          "parked on a live key, in-memory only) and expiries +1h/+3h/+100h/already-expired(in-memory only); after an advance the generator "
